@@ -8,43 +8,85 @@ import ast
 
 from .core import PureTr, Unsupported, find_def
 from .driver_py import dotted
+from .lazy import Inliner
 
 OUTPUTS = ["GenOps.v"]
 SEA, DE, LHS, SOBOL, INIT = ("pyhms/demes/single_pop_eas/sea.py", "pyhms/demes/single_pop_eas/de.py", "pyhms/demes/lhs_deme.py", "pyhms/demes/sobol_deme.py",
                              "pyhms/initializers.py")
 
 
-def assigns(fn, name):
-    return [s for s in ast.walk(fn) if isinstance(s, ast.Assign) and len(s.targets) == 1 and ast.unparse(s.targets[0]) == name]
-
-
-def one(fn, name, src):
-    a = assigns(fn, name)
-    if len(a) != 1:
-        raise Unsupported(f"{src}:{fn.lineno}: {fn.name} assigns {name} {len(a)} times")
-    return a[0].value
+def ret_of(fn, src):
+    body = [s_ for s_ in fn.body if not (isinstance(s_, ast.Expr) and isinstance(s_.value, ast.Constant))]
+    if not body or not isinstance(body[-1], ast.Return) or body[-1].value is None:
+        raise Unsupported(f"{src}:{fn.lineno}: {fn.name} does not end with `return <value>`")
+    return body[-1]
 
 
 class GTr(PureTr):
-    """array names / subscripted arrays are bound to gene variables through `names` (unparsed source text -> (coq, type))"""
+    """gene view of (inlined) numpy expressions: what one gene of the array is.  Random draws are recognised by the CALL that makes them and
+    become the oracle arguments of the generated function; `pop` is the name of the population parameter (its genomes are the gene x)."""
 
-    def __init__(self, src, names, calls=None):
+    def __init__(self, src, pop="population", names=None, calls=None):
         super().__init__(src, env={}, calls=calls or {})
-        self.names = names
+        self.pop, self.names = pop, names or {}
+
+    def is_pop_genomes(self, e):
+        txt = ast.unparse(e)
+        return txt in (f"{self.pop}.genomes", f"{self.pop}.copy().genomes")
 
     def expr(self, e):
         txt = ast.unparse(e)
         if txt in self.names:
             return self.names[txt]
+        if self.is_pop_genomes(e):
+            return ("x", "F")
+        if isinstance(e, ast.Call):
+            d = dotted(e.func)
+            if d == "np.random.normal":
+                return ("noise", "F")
+            if d == "np.random.uniform" and [ast.unparse(a) for a in e.args[:2]] == ["self.lower_bounds", "self.upper_bounds"]:
+                return ("sample", "F")
+            if d == "np.random.uniform" and [ast.unparse(a) for a in e.args[:2]] == ["0.5", "1"]:
+                return ("f", "F")          # the dither: one scaling factor per individual
+            if d == "np.random.rand" and not e.args:
+                return ("a", "F")          # the crossover weight alpha
+            if d == "np.repeat" and e.args:
+                return self.expr(e.args[0])     # broadcast of a per-individual value over the genes
+            if d in ("self.sampler.random",):
+                return ("s", "F")
+        if isinstance(e, ast.Compare) and len(e.ops) == 1 and isinstance(e.ops[0], (ast.Lt, ast.LtE)) and isinstance(e.comparators[0], (ast.Attribute, ast.Name)):
+            l = e.left
+            if isinstance(l, ast.Call) and dotted(l.func) in ("np.random.rand",):
+                return ("mask", "B")       # a random boolean mask (np.random.rand(...) < probability)
+        if isinstance(e, ast.Subscript):
+            sl = e.slice
+            if isinstance(sl, ast.Tuple) and len(sl.elts) == 2 and isinstance(sl.elts[0], ast.Slice) and sl.elts[0].lower is None and sl.elts[0].upper is None:
+                if isinstance(sl.elts[1], ast.Attribute) and dotted(sl.elts[1]) == "np.newaxis":
+                    return self.expr(e.value)
+                if isinstance(sl.elts[1], ast.Constant) and isinstance(sl.elts[1].value, int):
+                    k = sl.elts[1].value
+                    if ast.unparse(e.value) == f"select_parents({self.pop})":
+                        return (f"r{k}", "F")
+                    if ast.unparse(e.value).endswith(".bounds"):
+                        return (("lo", "hi")[k], "F") if k in (0, 1) else self.bad(e, "bounds column")
+                    if "select_parents" in ast.unparse(e.value):
+                        return (f"ra", "F")      # a donor drawn from the population merged with SHADE's archive
+            if self.is_pop_genomes(e.value):
+                if isinstance(sl, ast.Name) and sl.id == "i":
+                    return ("x", "F")
+                if isinstance(sl, ast.BinOp) and ast.unparse(sl) == "i + 1":
+                    return ("y", "F")
+                return ("pb", "F")       # the genomes of other individuals picked by an index array (SHADE's p-best)
+        if isinstance(e, ast.Attribute) and dotted(e) == "self.f":
+            return ("f", "F")
         if isinstance(e, ast.BinOp) and isinstance(e.op, ast.Mult):
             # bool array * float array: numpy converts True / False to 1.0 / 0.0
             a = self.expr(e.left)
-            if not isinstance(a, tuple) or a[1] != "B":
-                return super().expr(e)
-            b = self.expr(e.right)
-            if isinstance(b, tuple) and b[1] == "F":
-                return (f"(fmul (if {a[0]} then fone else (fzero false)) {b[0]})", "F")
-        if isinstance(e, ast.Constant) and isinstance(e.value, int) and e.value == 1:
+            if isinstance(a, tuple) and a[1] == "B":
+                b = self.expr(e.right)
+                if isinstance(b, tuple) and b[1] == "F":
+                    return (f"(fmul (if {a[0]} then fone else (fzero false)) {b[0]})", "F")
+        if isinstance(e, ast.Constant) and isinstance(e.value, int) and not isinstance(e.value, bool) and e.value == 1:
             return ("fone", "F")
         return super().expr(e)
 
@@ -62,14 +104,27 @@ def np_clip(tr, node, args, kw):
     return "(np_clip " + " ".join(c for c, _ in args) + ")", "F"
 
 
-def apply_bounds_call(method):
-    def f(tr, node, args, kw):
+def apply_bounds_raw(method):
+    """apply_bounds(<genes>, <population>.problem.bounds, [method=]"<method>")"""
+    def f(tr, node):
+        args = node.args
+        kw = {k.arg: k.value for k in node.keywords}
         m = kw.get("method") or (args[2] if len(args) > 2 else None)
-        mv = getattr(m, "v", None)
-        if mv != method or args[0][1] != "F":
-            tr.bad(node, f"apply_bounds call (expected method {method})")
-        return f"(apply_bounds_{method} {args[0][0]} lo hi)", "F"
+        if not (isinstance(m, ast.Constant) and m.value == method) or len(args) < 2 or not ast.unparse(args[1]).endswith(".problem.bounds"):
+            tr.bad(node, f"apply_bounds call (expected the population's problem bounds and method {method})")
+        c, t = tr.expr(args[0])
+        if t != "F":
+            tr.bad(node, "apply_bounds argument")
+        return f"(apply_bounds_{method} {c} lo hi)", "F"
     return f
+
+
+def sink_update_genome(fn, src):
+    calls = [s_ for s_ in ast.walk(fn) if isinstance(s_, ast.Expr) and isinstance(s_.value, ast.Call) and isinstance(s_.value.func, ast.Attribute)
+             and s_.value.func.attr == "update_genome" and len(s_.value.args) == 1]
+    if len(calls) != 1:
+        raise Unsupported(f"{src}:{fn.lineno}: {fn.name} calls update_genome {len(calls)} times")
+    return calls[0].value.args[0], calls[0]
 
 
 def translate(repo):
@@ -77,85 +132,100 @@ def translate(repo):
            "From Coq Require Import ZArith Bool.", "From HV Require Import F64 GenCommon.", ""]
     fns = []
     smod, dmod = ast.parse(open(f"{repo}/{SEA}").read()), ast.parse(open(f"{repo}/{DE}").read())
-    BOUNDS = {"population.problem.bounds": ("BOUNDS", "X"), "bounds": ("BOUNDS", "X")}
+    CALLS = {"np.where": np_where, "np.clip": np_clip}
 
-    # ---- GaussianMutation: new_genomes = genomes + binary_mask * noise ; apply_bounds(new_genomes, bounds, method="toroidal")
+    def G(src, pop="population", names=None, method=None):
+        tr = GTr(src, pop, names=names, calls=CALLS)
+        tr.rawcalls = {"apply_bounds": apply_bounds_raw(method)} if method else {}
+        return tr
+
+    def popname(fn):
+        return fn.args.args[1].arg
+
+    # ---- GaussianMutation / UniformMutation: what is handed to update_genome
     fn = find_def(smod, "__call__", "GaussianMutation")
-    a = assigns(fn, "new_genomes")
-    if len(a) != 2:
-        raise Unsupported(f"{SEA}:{fn.lineno}: GaussianMutation assigns new_genomes {len(a)} times")
-    a.sort(key=lambda s: s.lineno)
-    names = {"new_population.genomes": ("x", "F"), "binary_mask": ("mask", "B"), "noise": ("noise", "F"), **BOUNDS}
-    c1, t1 = GTr(SEA, names).expr(a[0].value)
-    tr = GTr(SEA, {"new_genomes": (c1, "F"), **BOUNDS}, calls={"apply_bounds": apply_bounds_call("toroidal")})
-    c2, t2 = tr.expr(a[1].value)
-    out.append(f"Definition gen_gaussian_gene (x noise : f64) (mask : bool) (lo hi : f64) : f64 :=\n  {c2}.\n")
+    e, st = sink_update_genome(fn, SEA)
+    c, t = G(SEA, popname(fn), method="toroidal").expr(Inliner(fn, SEA).inline(e, st))
+    out.append(f"Definition gen_gaussian_gene (x noise : f64) (mask : bool) (lo hi : f64) : f64 :=\n  {c}.\n")
     fns.append(f"{SEA}:GaussianMutation.__call__[gene]")
-
-    # ---- UniformMutation: np.where(rand < p, new_genomes, population_copy.genomes)
     fn = find_def(smod, "__call__", "UniformMutation")
-    a = sorted(assigns(fn, "new_genomes"), key=lambda s: s.lineno)
-    if len(a) != 2 or dotted(a[0].value.func) != "np.random.uniform" or [ast.unparse(x) for x in a[0].value.args] != ["self.lower_bounds", "self.upper_bounds"]:
-        raise Unsupported(f"{SEA}:{fn.lineno}: UniformMutation no longer samples np.random.uniform(self.lower_bounds, self.upper_bounds, ...)")
-    w = a[1].value
-    if not (isinstance(w, ast.Call) and dotted(w.func) == "np.where" and len(w.args) == 3 and isinstance(w.args[0], ast.Compare)):
-        raise Unsupported(f"{SEA}:{fn.lineno}: UniformMutation is not np.where(<random mask>, sample, parent)")
-    names = {ast.unparse(w.args[0]): ("mask", "B"), "new_genomes": ("sample", "F"), "population_copy.genomes": ("x", "F")}
-    c, t = GTr(SEA, names, calls={"np.where": np_where}).expr(w)
+    e, st = sink_update_genome(fn, SEA)
+    c, t = G(SEA, popname(fn)).expr(Inliner(fn, SEA).inline(e, st))
     out.append(f"Definition gen_uniform_gene (mask : bool) (sample x : f64) : f64 :=\n  {c}.\n")
     fns.append(f"{SEA}:UniformMutation.__call__[gene]")
 
-    # ---- ArithmeticCrossover: alpha * g[i] + (1 - alpha) * g[i+1], (1 - alpha) * g[i] + alpha * g[i+1], then np.clip to the box
+    # ---- ArithmeticCrossover: the two blended children (inside the pair loop), then np.clip of everything to the box
     fn = find_def(smod, "__call__", "ArithmeticCrossover")
-    names = {"alpha": ("a", "F"), "genomes[i]": ("x", "F"), "genomes[i + 1]": ("y", "F")}
-    pair = [s for s in ast.walk(fn) if isinstance(s, ast.Assign) and ast.unparse(s.targets[0]) in ("new_genomes[i]", "new_genomes[i + 1]") and isinstance(s.value, ast.BinOp)]
-    if len(pair) != 2:
-        raise Unsupported(f"{SEA}:{fn.lineno}: ArithmeticCrossover blend assignments")
-    pair.sort(key=lambda s: s.lineno)
-    cs = [GTr(SEA, names).expr(s.value) for s in pair]
-    clip = [s for s in assigns(fn, "new_genomes") if isinstance(s.value, ast.Call) and dotted(s.value.func) == "np.clip"]
-    if len(clip) != 1 or [ast.unparse(x) for x in clip[0].value.args] != ["new_genomes", "bounds[:, 0]", "bounds[:, 1]"] or ast.unparse(one(fn, "bounds", SEA)) != "population.problem.bounds":
-        raise Unsupported(f"{SEA}:{fn.lineno}: ArithmeticCrossover no longer clips the offspring to population.problem.bounds")
-    cl = GTr(SEA, {"new_genomes": ("v", "F"), "bounds[:, 0]": ("lo", "F"), "bounds[:, 1]": ("hi", "F")}, calls={"np.clip": np_clip}).expr(clip[0].value)
+    inl = Inliner(fn, SEA)
+    blends = [s_ for s_ in ast.walk(fn) if isinstance(s_, ast.Assign) and len(s_.targets) == 1 and isinstance(s_.targets[0], ast.Subscript)
+              and isinstance(s_.value, ast.BinOp) and isinstance(s_.value.op, ast.Add)]
+    blends.sort(key=lambda s_: s_.lineno)
+    if len(blends) != 2 or [ast.unparse(b.targets[0].slice) for b in blends] != ["i", "i + 1"]:
+        raise Unsupported(f"{SEA}:{fn.lineno}: ArithmeticCrossover: the two blend assignments new[i] = ..., new[i + 1] = ...")
+    cs = [G(SEA, popname(fn)).expr(inl.inline(b.value, b)) for b in blends]
+    clips = [s_ for s_ in ast.walk(fn) if isinstance(s_, ast.Assign) and isinstance(s_.value, ast.Call) and dotted(s_.value.func) == "np.clip" and len(s_.value.args) == 3]
+    if len(clips) != 1:
+        raise Unsupported(f"{SEA}:{fn.lineno}: ArithmeticCrossover no longer clips its offspring (np.clip)")
+    lo_hi = [ast.unparse(inl.inline(a, clips[0])) for a in clips[0].value.args[1:]]
+    if lo_hi != [f"{popname(fn)}.problem.bounds[:, 0]", f"{popname(fn)}.problem.bounds[:, 1]"]:
+        raise Unsupported(f"{SEA}:{clips[0].lineno}: ArithmeticCrossover clips to {lo_hi}, not to the columns of population.problem.bounds")
+    upd, st = sink_update_genome(fn, SEA)
+    if ast.dump(inl.inline(upd, st)) != ast.dump(inl.inline(clips[0].value, clips[0])):
+        raise Unsupported(f"{SEA}:{st.lineno}: ArithmeticCrossover hands update_genome something else than the clipped offspring")
     out.append(f"Definition gen_arith_first (a x y : f64) : f64 :=\n  {cs[0][0]}.\n")
     out.append(f"Definition gen_arith_second (a x y : f64) : f64 :=\n  {cs[1][0]}.\n")
-    out.append(f"Definition gen_arith_clip (v lo hi : f64) : f64 :=\n  {cl[0]}.\n")
+    out.append("Definition gen_arith_clip (v lo hi : f64) : f64 :=\n  (np_clip v lo hi).\n")
     fns.append(f"{SEA}:ArithmeticCrossover.__call__[gene]")
 
-    # ---- DE donors (BinaryMutation / BinaryMutationWithDither), reflect repair; SHADE's current-to-pbest donor; Crossover
-    R = {"randoms[:, 0]": ("r0", "F"), "randoms[:, 1]": ("r1", "F"), "randoms[:, 2]": ("r2", "F")}
-    for cls, fname, scal in (("BinaryMutation", "gen_de_donor", "self.f"), ("BinaryMutationWithDither", "gen_de_dither_donor", "scaling")):
+    # ---- DE operators: the genome array of the Population they return
+    def returned_genomes(cls):
         fn = find_def(dmod, "__call__", cls)
-        d = one(fn, "donor", DE)
-        c, t = GTr(DE, {**R, scal: ("f", "F")}).expr(d)
-        rep = one(fn, "new_genomes", DE)
-        c2, t2 = GTr(DE, {"donor": ("donor", "F"), **BOUNDS}, calls={"apply_bounds": apply_bounds_call("reflect")}).expr(rep)
+        r = ret_of(fn, DE)
+        e = Inliner(fn, DE).inline(r.value, r)
+        if not (isinstance(e, ast.Call) and dotted(e.func) == "Population" and len(e.args) == 3):
+            raise Unsupported(f"{DE}:{fn.lineno}: {cls}.__call__ does not return Population(new_genomes, new_fitness, problem)")
+        return fn, e.args[0]
+
+    for cls, fname in (("BinaryMutation", "gen_de_donor"), ("BinaryMutationWithDither", "gen_de_dither_donor")):
+        fn, g = returned_genomes(cls)
+        if not (isinstance(g, ast.Call) and dotted(g.func) == "apply_bounds" and g.args):
+            raise Unsupported(f"{DE}:{fn.lineno}: {cls} does not repair its donor with apply_bounds")
+        c, t = G(DE, popname(fn)).expr(g.args[0])
+        c2, t2 = G(DE, popname(fn), names={ast.unparse(g.args[0]): ("donor", "F")}, method="reflect").expr(g)
         out.append(f"Definition {fname} (f r0 r1 r2 : f64) : f64 :=\n  {c}.\n")
         out.append(f"Definition {fname}_repair (donor lo hi : f64) : f64 :=\n  {c2}.\n")
         fns.append(f"{DE}:{cls}.__call__[gene]")
-    fn = find_def(dmod, "__call__", "CurrentToPBestMutation")
-    names = {"population.genomes": ("x", "F"), "population.genomes[p_best_np]": ("pb", "F"), "f": ("f", "F"), "randoms[:, 0]": ("r0", "F"), "randoms_with_archive[:, 1]": ("ra", "F")}
-    c, t = GTr(DE, names).expr(one(fn, "mutated_genomes", DE))
-    c2, t2 = GTr(DE, {"mutated_genomes": ("donor", "F"), **BOUNDS}, calls={"apply_bounds": apply_bounds_call("reflect")}).expr(one(fn, "new_genomes", DE))
+    fn, g = returned_genomes("CurrentToPBestMutation")
+    if not (isinstance(g, ast.Call) and dotted(g.func) == "apply_bounds" and g.args):
+        raise Unsupported(f"{DE}:{fn.lineno}: CurrentToPBestMutation does not repair its donor with apply_bounds")
+    c, t = G(DE, popname(fn), names={"f": ("f", "F")}).expr(g.args[0])
+    c2, t2 = G(DE, popname(fn), names={ast.unparse(g.args[0]): ("donor", "F")}, method="reflect").expr(g)
     out.append(f"Definition gen_pbest_donor (f x pb r0 ra : f64) : f64 :=\n  {c}.\n")
     out.append(f"Definition gen_pbest_repair (donor lo hi : f64) : f64 :=\n  {c2}.\n")
     fns.append(f"{DE}:CurrentToPBestMutation.__call__[gene]")
-    fn = find_def(dmod, "__call__", "Crossover")
-    w = one(fn, "new_genomes", DE)
-    if not (isinstance(w, ast.Call) and dotted(w.func) == "np.where" and len(w.args) == 3 and isinstance(w.args[0], ast.Compare)):
-        raise Unsupported(f"{DE}:{fn.lineno}: Crossover is not np.where(<random mask>, mutated, parent)")
-    c, t = GTr(DE, {ast.unparse(w.args[0]): ("take", "B"), "mutated_population.genomes": ("donor", "F"), "population.genomes": ("x", "F")}, calls={"np.where": np_where}).expr(w)
+    fn, g = returned_genomes("Crossover")
+    mutn = fn.args.args[2].arg
+    c, t = G(DE, popname(fn), names={f"{mutn}.genomes": ("donor", "F")}).expr(g)
+    c = c.replace("(np_where mask ", "(np_where take ")
     out.append(f"Definition gen_de_crossover_gene (take : bool) (donor x : f64) : f64 :=\n  {c}.\n")
     fns.append(f"{DE}:Crossover.__call__[gene]")
 
-    # ---- LHS / Sobol: genomes = self.lower_bounds + sample * (self.upper_bounds - self.lower_bounds), bounds columns 0 / 1
+    # ---- LHS / Sobol: the genomes the Individuals are built from; lower / upper bounds are the columns of config.bounds
     for src, cls in ((LHS, "LHSDeme"), (SOBOL, "SobolDeme")):
         mod = ast.parse(open(f"{repo}/{src}").read())
         init = find_def(mod, "__init__", cls)
-        if ast.unparse(one(init, "self.lower_bounds", src)) != "config.bounds[:, 0]" or ast.unparse(one(init, "self.upper_bounds", src)) != "config.bounds[:, 1]":
+        lo = [s_ for s_ in ast.walk(init) if isinstance(s_, ast.Assign) and ast.unparse(s_.targets[0]) == "self.lower_bounds"]
+        hi = [s_ for s_ in ast.walk(init) if isinstance(s_, ast.Assign) and ast.unparse(s_.targets[0]) == "self.upper_bounds"]
+        if len(lo) != 1 or len(hi) != 1 or ast.unparse(Inliner(init, src).inline(lo[0].value, lo[0])) != "deme_init_args.config.bounds[:, 0]" \
+                or ast.unparse(Inliner(init, src).inline(hi[0].value, hi[0])) != "deme_init_args.config.bounds[:, 1]":
             raise Unsupported(f"{src}: {cls} lower/upper bounds are not the columns of config.bounds")
         fn = find_def(mod, "run", cls)
-        c, t = GTr(src, {"self.lower_bounds": ("lo", "F"), "self.upper_bounds": ("hi", "F"), "sample": ("s", "F")}).expr(one(fn, "genomes", src))
+        comps = [n for n in ast.walk(fn) if isinstance(n, ast.ListComp) and isinstance(n.elt, ast.Call) and dotted(n.elt.func) == "Individual"
+                 and n.elt.args and isinstance(n.elt.args[0], ast.Name) and isinstance(n.generators[0].target, ast.Name) and n.elt.args[0].id == n.generators[0].target.id]
+        if len(comps) != 1:
+            raise Unsupported(f"{src}:{fn.lineno}: {cls}.run does not build its Individuals from one array of genomes")
+        it = Inliner(fn, src).inline_at(comps[0].generators[0].iter)
+        c, t = G(src, names={"self.lower_bounds": ("lo", "F"), "self.upper_bounds": ("hi", "F")}).expr(it)
         out.append(f"Definition gen_{cls}_scale (lo hi s : f64) : f64 :=\n  {c}.\n")
         fns.append(f"{src}:{cls}.run[gene]")
 
@@ -165,8 +235,8 @@ def translate(repo):
     inner = {n.name: n for n in sn.body if isinstance(n, ast.FunctionDef)}
     want_in = "if bounds is None:\n    return True\nelse:\n    return np.all(x >= bounds[:, 0]) and np.all(x <= bounds[:, 1])"
     want_cr = "x = sample()\nwhile not in_bounds(x):\n    x = sample()\nreturn x"
-    got_in = "\n".join(ast.unparse(s) for s in inner.get("in_bounds", ast.parse("pass")).body)
-    got_cr = "\n".join(ast.unparse(s) for s in inner.get("create", ast.parse("pass")).body)
+    got_in = "\n".join(ast.unparse(s_) for s_ in inner.get("in_bounds", ast.parse("pass")).body)
+    got_cr = "\n".join(ast.unparse(s_) for s_ in inner.get("create", ast.parse("pass")).body)
     if got_in != want_in or got_cr != want_cr or ast.unparse(sn.body[-1]) != "return create":
         raise Unsupported(f"{INIT}:{sn.lineno}: sample_normal is no longer `draw until every coordinate is inside [bounds[:,0], bounds[:,1]]`")
     out.append("Definition gen_in_bounds_gene (x lo hi : f64) : bool :=\n  (andb (fge x lo) (fle x hi)).\n")
